@@ -634,6 +634,7 @@ class World:
             self._record('stim', o='offer-skipped', t=t)
             return
         link = await self._peer_p_link()
+        self._record('stim', o='offer-begin', t=t)
         self.peer_ticket += 1
         self.offers[self.peer_ticket] = t
         link.ep.send_message(M.PeerTransferRequest.Request(1, self.peer_ticket, self.names[t - 1], filesize=FILESIZE))
